@@ -30,6 +30,7 @@ ENTRIES = [(HYP, q) for q in (
 def run(ctx):
     ctx.do(MI.rule_form1)
     ctx.do(MI.rule_blk1)
+    ctx.do(MI.rule_nanflow1)
     ctx.do(MI.rule_inv3)
     ctx.do(MI.rule_pinv1)
     ctx.do(MI.rule_ori1)
